@@ -8,7 +8,7 @@ Line-protocol handler for the primitive wire codecs (`Model/Wire.lean`) and the 
 Type syntax (one token, `/`-separated prefix notation):
 `bool` `u8` `i8` `i16` `u16` `i32` `i64` `u64` `f32` `f64` `varint` `varlong` `string` `uuid` `angle`
 `fixed/<base>/<bits>` `bytesv` `bytess` `trailing` `arr/<varint|i32|i16|u8>/<type…>`
-`pos/<0|1>` `secpos` `rec/<0|1>` `expl/<0|1>` `effpos` `pitch` `nbt`
+`pos/<0|1>` `secpos` `rec/<0|1>` `expl` `effpos` `pitch/<0|1>/<0|1>` `nbt`
 (the last seven are `.custom …`), e.g. `arr/varint/arr/i32/string`.
 
 Value syntax (one token): `T` | `F` | `i<int>` | `x<hex>` (`x` alone = empty bytes) |
@@ -49,11 +49,14 @@ def wtypeParts : List String → Option WType
   | ["trailing"] => some .trailing
   | ["secpos"] => some (.custom .secpos)
   | ["effpos"] => some (.custom .effectPos)
-  | ["pitch"] => some (.custom .pitch)
+  | ["expl"] => some (.custom .explRecord)
   | ["nbt"] => some (.custom .nbt)
   | ["pos", f] => (flag? f).map fun b => .custom (.position b)
   | ["rec", f] => (flag? f).map fun b => .custom (.record b)
-  | ["expl", f] => (flag? f).map fun b => .custom (.explRecord b)
+  | ["pitch", f, g] => do
+    let a ← flag? f
+    let b ← flag? g
+    pure (.custom (.pitch a b))
   | ["fixed", base, bits] =>
     match intT? base, bits.toNat? with
     | some b, some n => some (.fixed b n)
